@@ -36,6 +36,7 @@ type pager struct {
 	changeCtr  uint32
 	dmsHeld    bool
 	seedCursor int
+	onCommit   func() // called when the call that commits a transaction has returned
 }
 
 func newPager(r *Rand, ps int, do func(string) string) *pager {
@@ -241,6 +242,9 @@ func (p *pager) journalTx(s txShape, spillAfter int, rollback int) {
 		default:
 			p.do("jw 0 z28")
 		}
+		if p.onCommit != nil && rollback == 0 {
+			p.onCommit()
+		}
 	}
 	unlockAll := func() {
 		if exclusive {
@@ -431,6 +435,9 @@ func (p *pager) walTx(s txShape, rollback bool, repeat bool, splitWrites bool) {
 		off += 24 + int64(p.ps)
 	}
 	p.do(fmt.Sprintf("unlock %d WRITE", o))
+	if p.onCommit != nil && !rollback {
+		p.onCommit()
+	}
 	p.do(fmt.Sprintf("unlock %d %s", o, rd))
 	if rollback {
 		return // frames stay in the file beyond walOff; the next transaction overwrites them
